@@ -5286,6 +5286,17 @@ class PyCdlib:
                         new_list.append((linkrec, is_pvd))
                 entry.inode.linked_records = new_list
 
+                # If the boot file was hidden (it has no directory entries
+                # left), the El Torito entry was the last reference to its
+                # data, so the data goes away with it.
+                if not new_list:
+                    for index, ino in enumerate(self.inodes):
+                        if id(ino) == id(entry.inode):
+                            del self.inodes[index]
+                            num_bytes_to_remove += utils.ceiling_div(entry.inode.get_data_length(),
+                                                                     self.logical_block_size) * self.logical_block_size
+                            break
+
         num_bytes_to_remove += len(self.eltorito_boot_catalog.record())
 
         self.eltorito_boot_catalog = None
